@@ -2,6 +2,7 @@
 #include "graphsnap.hpp"
 #include "oracles.hpp"
 #include "sources.hpp"
+#include "indep_nif.hpp"
 
 namespace {
 using namespace vf;
@@ -242,12 +243,28 @@ void run(size_t idx) {
 		ApiOpts ao;
 		ao.shapes = 2 + (int)(idx % 3);
 		ao.partitions = idx % 2 == 0;
+		ao.portedTangentBlock = idx % 4 == 1;
 		ApiModel m = buildApiModel(seed, (int)idx, &ao);
 		if (!m.ok) return;
 		// raw-saved bytes of the built model (loose blocks and construction order preserved)
 		NifFile cp(*m.nif);
 		if (idx % 4 == 1 && cp.GetShapes().size() > 1) cp.GetShapes()[1]->name.get() = cp.GetShapes()[0]->name.get();   // duplicate sibling names
+		uint32_t nbBuilt = cp.GetHeader().GetNumBlocks();
+		std::vector<std::string> typesBuilt;
+		for (uint32_t i = 0; i < nbBuilt; i++) typesBuilt.push_back(cp.GetHeader().GetBlockTypeStringById(i));
+		bool ob = cp.GetHeader().GetVersion().IsOB();
 		std::string bytes = saveNif(cp, true);
+		{
+			// a save that neither sorts nor prunes writes exactly the blocks of the model (Oblivion adds / removes its tangent-space extra data)
+			R_eval();
+			indep::Header h = indep::parse(bytes);
+			if (h.ok && !ob && h.numBlocks != nbBuilt) {
+				std::string lost;
+				for (size_t i = 0; i < typesBuilt.size() && lost.empty(); i++)
+					if (i >= h.numBlocks || h.typeOf(i) != typesBuilt[i]) lost = typesBuilt[i];
+				R_viol("raw-save-changes-blocks", verClass(cp.GetHeader().GetVersion()) + "/" + lost, "api:" + m.desc + fmt(": the model has %u blocks, its raw save (no sorting, no pruning) writes %u; first difference at a %s", nbBuilt, h.numBlocks, lost.c_str()));
+			}
+		}
 		checkModel(bytes, "api:" + m.desc, seed);
 		if (idx == 0) R_sample(fmt("{\"source\":\"api\",\"model\":\"%s\"}", jesc(m.desc).c_str()));
 	}
